@@ -185,6 +185,7 @@ int __real_pthread_detach(pthread_t);
 int __real_pthread_spin_lock(pthread_spinlock_t *);
 int __real_pthread_spin_unlock(pthread_spinlock_t *);
 
+void sync_log(const char *op, int obj);
 int simk_nthreads(void) { return nth; }
 int simk_wait_count(void) { return nwaits; }
 void simk_set_schedule(const int *s, int n) { schedv = s; schedn = n; schedi = 0; }
@@ -387,7 +388,7 @@ static void pick_and_wait(void)
 
 static int mt(void) { return nth > 1 && !simk_passthrough; }
 
-static void sync_log(const char *op, int obj)
+void sync_log(const char *op, int obj)
 {
 	if (nth > 1 || simk_passthrough)
 		tr("\"e\":\"Sy\",\"op\":\"%s\",\"x\":%d}", op, obj);
@@ -454,6 +455,19 @@ int __wrap_pthread_spin_unlock(pthread_spinlock_t *m)
 	if (mt())
 		pick_and_wait();
 	__real_pthread_mutex_unlock(&M);
+	return r;
+}
+
+int __real_pthread_once(pthread_once_t *, void (*)(void));
+
+int __wrap_pthread_once(pthread_once_t *o, void (*fn)(void))
+{
+	int li = simk_passthrough ? 0 : lk_idx(o);
+	if (!simk_passthrough)
+		sync_log("acq", li);
+	int r = __real_pthread_once(o, fn);
+	if (!simk_passthrough)
+		sync_log("rel", li);
 	return r;
 }
 
@@ -750,6 +764,8 @@ static int do_wait(int prim, int epfd, struct epoll_event *ev, int max,
 	T[me].st = ST_RUN;
 	T[me].deadline = -1;
 	e = r < 0 ? errno : 0;
+	if (memrec_on && memrec_words && r > 0 && prim <= 1)
+		sync_log("acq", 1000 + epfd);
 	log_wr(r, e, ev, pf, npf);
 	__real_pthread_mutex_unlock(&M);
 	errno = e;
@@ -831,6 +847,8 @@ int __wrap_epoll_ctl(int epfd, int op, int fd, struct epoll_event *ev)
 		errno = e;
 		return -1;
 	}
+	if (memrec_on && memrec_words)
+		sync_log("rel", 1000 + epfd);
 	int r = __real_epoll_ctl(epfd, op, fd, ev);
 	e = errno;
 	int f = hooks.fid_of_osfd ? hooks.fid_of_osfd(fd) : 0;
@@ -950,7 +968,12 @@ ssize_t __wrap_read(int fd, void *buf, size_t n)
 	for (int i = 0; i < ntf; i++)
 		if (TF[i].fd == fd)
 			TF[i].fired = 0;
-	return __real_read(fd, buf, n);
+	ssize_t rr = __real_read(fd, buf, n);
+	e = errno;
+	if (memrec_on && memrec_words && rr > 0)
+		sync_log("acq", 1000 + fd);
+	errno = e;
+	return rr;
 }
 
 ssize_t __wrap_write(int fd, const void *buf, size_t n)
@@ -960,6 +983,8 @@ ssize_t __wrap_write(int fd, const void *buf, size_t n)
 		errno = e;
 		return -1;
 	}
+	if (memrec_on && memrec_words)
+		sync_log("rel", 1000 + fd);	/* data handed over through a descriptor */
 	ssize_t r = __real_write(fd, buf, n);
 	e = errno;
 	if (!simk_passthrough && !simk_quiet_io) {
